@@ -401,24 +401,40 @@ pub fn write_config(spec: &AppSpec, dir: &Path) -> std::io::Result<(PathBuf, Str
         }
     }
     }
-    // access
-    match &w.access {
-        AccessCfg::None => t.push_str("\n[access]\ntype = \"no_access_model\"\n"),
-        AccessCfg::TurnDelay { headings, table, unit } => {
-            let p = dir.join("headings.csv");
-            let mut s = String::from("arrival_heading,departure_heading\n");
-            for (a, d) in headings {
-                s.push_str(&format!("{},{}\n", a, d.map(|x| x.to_string()).unwrap_or_default()));
+    // access: plain, or wrapped in a combined model in one of four equivalent ways (see World::access_wrap)
+    let access_pairs = |share: f64, files: &mut Vec<(PathBuf, String)>| -> Vec<String> {
+        match &w.access {
+            AccessCfg::None => vec!["type = \"no_access_model\"".to_string()],
+            AccessCfg::TurnDelay { headings, table, unit } => {
+                let p = dir.join("headings.csv");
+                let mut s = String::from("arrival_heading,departure_heading\n");
+                for (a, d) in headings {
+                    s.push_str(&format!("{},{}\n", a, d.map(|x| x.to_string()).unwrap_or_default()));
+                }
+                if !files.iter().any(|(q, _)| *q == p) {
+                    files.push((p.clone(), s));
+                }
+                let tbl: Vec<String> = TURNS.iter().enumerate().map(|(i, n)| format!("{} = {:?}", n, table[i] * share)).collect();
+                vec![
+                    "type = \"turn_delay\"".to_string(),
+                    format!("edge_heading_input_file = {}", tstr(p.to_str().unwrap_or(""))),
+                    format!("turn_delay_model = {{ type = \"tabular_discrete\", time_unit = \"{}\", table = {{ {} }} }}", unit, tbl.join(", ")),
+                ]
             }
-            files.push((p.clone(), s));
-            let tbl: Vec<String> = TURNS.iter().enumerate().map(|(i, n)| format!("{} = {:?}", n, table[i])).collect();
-            t.push_str(&format!(
-                "\n[access]\ntype = \"turn_delay\"\nedge_heading_input_file = {}\nturn_delay_model = {{ type = \"tabular_discrete\", time_unit = \"{}\", table = {{ {} }} }}\n",
-                tstr(p.to_str().unwrap_or("")),
-                unit,
-                tbl.join(", ")
-            ));
         }
+    };
+    let inline = |pairs: Vec<String>| format!("{{ {} }}", pairs.join(", "));
+    let none = "{ type = \"no_access_model\" }".to_string();
+    let models: Option<Vec<String>> = match w.access_wrap {
+        1 => Some(vec![inline(access_pairs(1.0, &mut files))]),
+        2 => Some(vec![inline(access_pairs(1.0, &mut files)), none]),
+        3 => Some(vec![none, inline(access_pairs(1.0, &mut files))]),
+        4 => Some(vec![inline(access_pairs(0.3, &mut files)), inline(access_pairs(0.7, &mut files))]),
+        _ => None,
+    };
+    match models {
+        Some(m) => t.push_str(&format!("\n[access]\ntype = \"combined\"\naccess_models = [{}]\n", m.join(", "))),
+        None => t.push_str(&format!("\n[access]\n{}\n", access_pairs(1.0, &mut files).join("\n"))),
     }
     // cost
     t.push_str("\n[cost]\n");
